@@ -46,7 +46,7 @@ contract(f"{RT}::Router.subject_to_acl", props=["C06"], requires=["wf_frame(fram
 contract(f"{RT}::Router.process_frame", verify=False, note="forwarding decision after the filter: not yet under contract",
          ensures=[], modifies=["heap"], allocates=True)
 contract(f"{RT}::Router.receive_frame", props=["C06", "C12"],
-         requires=["wf_frame(frame)", "acl_wf(self.acl)"],
+         requires=["wf_frame(frame)", "acl_wf(self.acl)", "masks_valid(self)"],
          ensures=[
              # "while a node is not ON it neither processes nor emits traffic"
              ("off_does_nothing", "implies(old(self.operating_state) != NodeOperatingState.ON, unchanged() and n_events() == old(n_events()))"),
